@@ -23,7 +23,7 @@ type c20Case struct {
 func init() {
 	engine.Register(&engine.Check{
 		ID: "C20", Level: "exploration",
-		Rule:        "every sequence of 0..5 (quick) / 0..6 (thorough) points on the 3x3 grid and 0..4 / 0..5 on the 4x4 grid; every sequence of length <=9 / <=11 over a 3-point alphabet (deep stacks, repeated points, zero-length chords, closed loops); straight and zig-zag runs of 50/100/200 points with every single point displaced; damped zig-zags and inward spirals of every length 20..70, 100 and 200 in both directions (deep interval stacks on either side); every sequence of 3..4 grid points again at three offsets up to 2^38 (one of them stretched by 30; chords stay shorter than 128, so the smallest non-zero distance is 2^8 times the rounding of a projected point at that offset); straight runs with displacements of 2^-21..2^-40 against thresholds around them; x thresholds {0, 1/4, 1/2, 1/sqrt2, 1, sqrt2, 2, 10} x stride 2..5 with NaN extras. Oracle: indexes strictly increasing incl. first and last (all indexes for <3 points); for each omitted point the exact rational squared distance to the segment between its nearest retained neighbours is <= t^2(1+2^-40) (exactly 0 for t = 0); simplifying the selected points again returns all of them. distinct_nontrivial = distinct (sequence, threshold) with >= 3 points Also: every point count 0..260 (zig-zag with one displaced point, lattice walk, collinear run) and, for every case, the returned slice overwritten and appended to by the caller followed by the same call again. Round 8: raster lines (two and three runs of unit steps in all direction pairs / triples with single or doubled joints; a long run with an out-and-back excursion of 1..6 steps in every direction) x 8 thresholds; sequences of 1000, 4097, 10001 (thorough 40000) points. Round 9: every stride > 2 case again with finite extra ordinates and with one NaN / one +Inf extra: the same indexes. Round 12: every 3..4-point sequence of the 3x3 grid scaled by 2^-270..2^-500 and 2^200, thresholds scaled alike.",
+		Rule:        "every sequence of 0..5 (quick) / 0..6 (thorough) points on the 3x3 grid and 0..4 / 0..5 on the 4x4 grid; every sequence of length <=9 / <=11 over a 3-point alphabet (deep stacks, repeated points, zero-length chords, closed loops); straight and zig-zag runs of 50/100/200 points with every single point displaced; damped zig-zags and inward spirals of every length 20..70, 100 and 200 in both directions (deep interval stacks on either side); every sequence of 3..4 grid points again at three offsets up to 2^38 (one of them stretched by 30; chords stay shorter than 128, so the smallest non-zero distance is 2^8 times the rounding of a projected point at that offset); straight runs with displacements of 2^-21..2^-40 against thresholds around them; x thresholds {0, 1/4, 1/2, 1/sqrt2, 1, sqrt2, 2, 10} x stride 2..5 with NaN extras. Oracle: indexes strictly increasing incl. first and last (all indexes for <3 points); for each omitted point the exact rational squared distance to the segment between its nearest retained neighbours is <= t^2(1+2^-40) (exactly 0 for t = 0); simplifying the selected points again returns all of them. distinct_nontrivial = distinct (sequence, threshold) with >= 3 points Also: every point count 0..260 (zig-zag with one displaced point, lattice walk, collinear run) and, for every case, the returned slice overwritten and appended to by the caller followed by the same call again. Round 8: raster lines (two and three runs of unit steps in all direction pairs / triples with single or doubled joints; a long run with an out-and-back excursion of 1..6 steps in every direction) x 8 thresholds; sequences of 1000, 4097, 10001 (thorough 40000) points. Round 9: every stride > 2 case again with finite extra ordinates and with one NaN / one +Inf extra: the same indexes. Round 12: every 3..4-point sequence of the 3x3 grid scaled by 2^-270..2^-500 and 2^200, thresholds scaled alike. Round 13: 4- and 5-point sequences on coordinates in different binades (x in {0.3,2.3,12.1}, y in {0.7,4.3,18.9}) with thresholds at the distance of each interior point from the end-to-end chord and its float neighbours.",
 		Run:         c20Run,
 		Replay:      func(c *engine.Ctx, kind string, raw json.RawMessage) { c20Exec(c, decodeCase[c20Case](raw)) },
 		Assumptions: []string{"integer-grid inputs (exact distances); thresholds >= 0"},
@@ -415,6 +415,53 @@ func c20Run(c *engine.Ctx) {
 			}
 		}
 	}
+	// ties on coordinates that are no dyadic fractions: every sequence of 4 and 5 points of the 3x3
+	// grid mapped to x in {0.3, 2.3, 12.1}, y in {0.7, 4.3, 18.9}, simplified with the threshold AT the
+	// distance of each interior point from the chord between the end points (the exact distance
+	// rounded to a float64, and its two neighbours): whatever a rounding decides there, the second
+	// pass over the result decides it the same way, and nothing farther than the threshold is lost
+	var g3 [][2]float64
+	for gx := 0; gx < 3; gx++ {
+		for gy := 0; gy < 3; gy++ {
+			// (values in different binades: differences and running sums of steps are rounded)
+			g3 = append(g3, [2]float64{[]float64{0.3, 2.3, 12.1}[gx], []float64{0.7, 4.3, 18.9}[gy]})
+		}
+	}
+	tieJobs := 9 * 9
+	c.Parallel(tieJobs, func(j int) {
+		for n := 4; n <= 5; n++ {
+			idx := make([]int, n)
+			idx[0], idx[1] = j/9, j%9
+			var rec func(k int)
+			rec = func(k int) {
+				if k == n {
+					pts := make([]ref.F, 0, 2*n)
+					for _, q := range idx {
+						pts = append(pts, ref.F(g3[q][0]), ref.F(g3[q][1]))
+					}
+					p2 := toP2(pts)
+					as3 := func(p ref.P2) ref.P3 { return ref.P3{X: p.X, Y: p.Y} }
+					for i := 1; i < n-1; i++ {
+						d2, _ := ref.PointSeg2(as3(p2[i]), as3(p2[0]), as3(p2[n-1])).Float64()
+						t := math.Sqrt(d2)
+						if t == 0 {
+							continue
+						}
+						for _, tt := range []float64{t, math.Nextafter(t, 0), math.Nextafter(t, math.Inf(1))} {
+							c.Count("decimal_tie_cases", 1)
+							c20Exec(c, c20Case{Pts: pts, Threshold: ref.F(tt), Stride: 2 + (i+n)%4})
+						}
+					}
+					return
+				}
+				for q := 0; q < 9; q++ {
+					idx[k] = q
+					rec(k + 1)
+				}
+			}
+			rec(2)
+		}
+	})
 	if c.Get("dropped_some") == 0 || c.Get("kept_all") == 0 {
 		c.Warn("vacuous: one outcome class is empty")
 	}
